@@ -67,6 +67,13 @@ impl Handle {
         c.inject.extend(bytes);
         Handle::wake(&c);
     }
+    /// last bytes and end of stream become visible together
+    pub fn inject_then_close_socket(&self, bytes: Vec<u8>) {
+        let mut c = (self.0).0.lock().unwrap();
+        c.inject.extend(bytes);
+        c.eof = true;
+        Handle::wake(&c);
+    }
     pub fn close_socket(&self) {
         let mut c = (self.0).0.lock().unwrap();
         c.eof = true;
